@@ -71,8 +71,20 @@ func inModule(t types.Type) bool {
 	return true // unnamed
 }
 
+// pseudo types of the specification language (no Go counterpart)
+var (
+	tWorld   = types.NewNamed(types.NewTypeName(0, nil, "World", nil), types.NewStruct(nil, nil), nil)
+	tOutcome = types.NewNamed(types.NewTypeName(0, nil, "Outcome", nil), types.NewStruct(nil, nil), nil)
+)
+
 // sortOf maps a Go type to an SMT sort name.
 func (s *Sorts) sortOf(t types.Type) string {
+	if t == types.Type(tWorld) {
+		return "World"
+	}
+	if t == types.Type(tOutcome) {
+		return "Outcome"
+	}
 	switch u := t.Underlying().(type) {
 	case *types.Basic:
 		switch {
@@ -204,6 +216,10 @@ func (s *Sorts) zero(t types.Type) Term {
 		return "nilSlice"
 	case "Val":
 		return "VNil"
+	case "World":
+		return "world0"
+	case "Outcome":
+		return "(mkOut VNil VNil world0)"
 	}
 	si := s.structOf(t)
 	if si == nil {
@@ -246,6 +262,7 @@ func (s *Sorts) declarations() string {
 		defs = append(defs, sd.String())
 	}
 	fmt.Fprintf(&b, "(declare-datatypes (%s) (\n  %s))\n", strings.Join(names, " "), strings.Join(defs, "\n  "))
+	b.WriteString("(declare-sort World 0)\n(declare-const world0 World)\n(declare-datatypes ((Outcome 0)) (((mkOut (outV Val) (outE Val) (outW World)))))\n")
 	// interface implementation predicates
 	for _, name := range s.ifaceOrd {
 		iface := s.ifaces[name]
